@@ -25,7 +25,8 @@ RULE = (
     "type-sensitively, so which of several equal rows a deduplication or a stable sort lets through is observable; "
     "20 % of the numeric literals are floats / bools equal to the integer drawn and 12 % of the calculations and "
     "selections reuse an earlier expression of the case with its literals re-typed (expressions that compare equal "
-    "without being the same). "
+    "without being the same).  Unary factory calls downstream of an iteration-to-iteration transfer carry a preferred "
+    "engine with backtracking in 30 % of the cases (the model ignores it: where the library puts the operation must not matter). "
 )
 ASSUMPTIONS = [
     "reference model vmon/model.py (full-row first-occurrence deduplication, stable multi-key sort via comparator)",
@@ -56,6 +57,14 @@ def gen_case(rng, tier):
     from .. import exprs
 
     exprs.LIT_KINDS = 0.2  # float / bool literals equal to the integer drawn; results are compared type-sensitively
+    if rng.random() < 0.03:
+        # directed: a sort requested with a preferred engine on top of `... -> transfer -> sort`
+        # (new terms: expressions over / flipped / a superset of the existing sort's terms)
+        from . import c03
+
+        d = c03.sort_over_sort_case(rng)
+        prog = ["sort", d["prog"], d["final"]["node"][2], {"pe": "it", "bt": True, "tr": False, "rq": False}]
+        return {"leaves": d["leaves"], "prog": prog, "cols": d["cols"], "engine": d["engine"]}
     cfg = gen.Cfg(**CFG, max_depth=2 if tier == "quick" or rng.random() < 0.6 else 3)
     g = gen.Gen(rng, cfg)
     state = g.tree()
@@ -64,7 +73,12 @@ def gen_case(rng, tier):
         state = gen.chain_with_name_twin(g, state, rng) or state
         for _ in range(rng.randint(0, 2)):
             state = g.unary(state, rng.choice(["sel", "slice", "sort", "dedup", "proj"])) or state
-    return gen.case_from(g, state)
+    case = gen.case_from(g, state)
+    # factory calls downstream of an iteration-to-iteration transfer may name a preferred engine
+    # (not projections: a projection moved upstream of a deduplication is the recorded known finding
+    # KF-proj-dedup, which C03 / C04 classify from the commute() calls they observe)
+    case["prog"], _ = gen.sprinkle_options(case["prog"], rng, ("it", "it2"), 0.3, kinds=("calc", "sel", "dedup", "sort"))
+    return case
 
 
 def run_case(case):
